@@ -1,4 +1,5 @@
 import OpacusLean.Model.Checkpoint
+import OpacusLean.Generated.CheckpointKeys
 /-! # C16 — checkpoint and resume preserve the privacy ledger and the training trajectory
 
 All statements are over arbitrary scalar / parameter / optimizer-state / batch types and an arbitrary
@@ -441,5 +442,44 @@ theorem load_aliasing_witness :
     dictAfter .prv = some ([(1, 1, 3)], [(1, 1, 3)]) ∧
     dictAfter .gdp = some ([(1, 1, 2)], [(1, 1, 3)]) := by
   refine ⟨by decide, by decide, by decide⟩
+
+/-! ## The tie to the source: `IAccountant.state_dict / load_state_dict` and the key tables of `save_checkpoint` /
+`load_checkpoint`, re-translated on every run (`Generated/CheckpointKeys.lean`) -/
+section Tie
+open Opacus.Generated.CheckpointKeys
+set_option linter.unusedSimpArgs false
+
+/-- **generated_load_state_dict_eq_model**: the guards of `IAccountant.load_state_dict` as written in the source, evaluated
+with Python's exception semantics, accept exactly the dicts the model's `Acct.loadStateDict` accepts, bind `self.history` to the
+same history object, and reject every other dict with `ValueError` (never `KeyError` / `TypeError`: each lookup is guarded by
+an earlier test) -/
+
+theorem generated_load_state_dict_eq_model (a : Acct) (sd : SDObj) :
+    loadStateDict a.mech (some sd) =
+      (match a.loadStateDict sd with
+       | .ok a' => .ok a'.href
+       | .error _ => .error PyExc.valueError) := by
+  rcases sd with ⟨_ | r, _ | m⟩ <;>
+    simp [loadStateDict, Acct.loadStateDict, pyOr, pyAnd, pyNot, pyNe, pyEq, pyLt, pyLe, pyGt, pyGe, isNone, truthy, len, hasKey, getMech, getHist,
+      bind, Except.bind, pure, Except.pure, throw, throwThe, MonadExceptOf.throw]
+  by_cases h : a.mech = m <;> simp [h]
+
+/-- `load_state_dict(None)` is rejected with `ValueError` -/
+
+theorem generated_load_none_rejected (m : Mech) : loadStateDict m none = .error PyExc.valueError := by
+  simp [loadStateDict, pyOr, pyAnd, pyNot, isNone, truthy, bind, Except.bind, pure, Except.pure, throw, throwThe, MonadExceptOf.throw]
+
+/-- **generated_checkpoint_keys_eq_model**: `load_checkpoint` reads back exactly the keys `save_checkpoint` writes, each into the
+component it came from and under the same "only when given" rule; the components are the five the model's `Ckpt` carries
+(module, accountant, inner optimizer, the two schedulers), module and accountant unconditionally; the keys are distinct;
+`state_dict()` deep-copies the history and tags the mechanism -/
+theorem generated_checkpoint_keys_eq_model :
+    saved = loaded ∧
+    saved.map (·.2.1) = [Comp.module, Comp.accountant, Comp.optimizer, Comp.noiseScheduler, Comp.gradClipScheduler] ∧
+    (saved.map (·.1)).Nodup ∧
+    (saved.filter (fun r => !r.2.2)).map (·.2.1) = [Comp.module, Comp.accountant] ∧
+    stateDictDeepCopies = true ∧ stateDictTagsMechanism = true := by
+  refine ⟨by decide, by decide, by decide, by decide, by decide, by decide⟩
+end Tie
 
 end Opacus.C16
